@@ -22,8 +22,12 @@ type helloEdit struct {
 	visible func(ch *wire.ClientHello) string // "" = visible
 }
 
-func genEdit(rg *rand.Rand, u *tls.UConn) *helloEdit {
-	switch rg.Intn(12) {
+func genEdit(rg *rand.Rand, u *tls.UConn) *helloEdit { return genEditKind(rg, u, rg.Intn(12)) }
+
+const c01EditKinds = 12
+
+func genEditKind(rg *rand.Rand, u *tls.UConn, kind int) *helloEdit {
+	switch kind {
 	case 8: // direct edit of the server_name extension object (in place, or replaced by a new one)
 		name := []string{"direct.example.test", "edited.test", "d.e.f.example.test"}[rg.Intn(3)]
 		replace := rg.Intn(2) == 0
@@ -301,9 +305,11 @@ func genEdit(rg *rand.Rand, u *tls.UConn) *helloEdit {
 	}
 }
 
+var c01ECHKey = sync.OnceValue(func() *peer.ECHKey { return peer.NewECHKey(9, "public.example.test", []uint16{1, 3}, 32) })
+
 // C01 — The ClientHello on the wire is exactly the hello the caller built and inspected.
 func TestC01(t *testing.T) {
-	r := mon.New("C01", "non-Golang targets (every parrot, seeded randomized, generated custom specs) x edit sequences of length 0..4 over the documented mutators (SetClientRandom, SetSNI, Hello.CipherSuites, Hello.SessionId, Extensions append/drop/swap/ALPN) applied between BuildHandshakeState and Handshake x {plain server, HRR server}: the first tapped ClientHello equals Hello.Raw as it stands when the server receives it and the snapshot taken after the last explicit BuildHandshakeState; every edit is visible in the strictly parsed wire hello; after a successful handshake Hello.Raw equals the last ClientHello on the wire. distinct = (target family, edit names, server behaviour)")
+	r := mon.New("C01", "non-Golang targets (every parrot, seeded randomized, generated custom specs) x edit sequences of length 0..4 over the documented mutators (SetClientRandom, SetSNI, Hello.CipherSuites, Hello.SessionId, Extensions append/drop/swap/ALPN) applied between BuildHandshakeState and Handshake x {plain server, HRR server} x {first visit, returning client with a cached TLS 1.2 / 1.3 session}: the first tapped ClientHello equals Hello.Raw as it stands when the server receives it and the snapshot taken after the last explicit BuildHandshakeState; every edit is visible in the strictly parsed wire hello; after a successful handshake Hello.Raw equals the last ClientHello on the wire. distinct = (target family, edit names, server behaviour)")
 	defer r.Finish(t)
 	var targets []Target
 	targets = append(targets, ParrotTargets(false)...)
@@ -318,11 +324,27 @@ func TestC01(t *testing.T) {
 		t   Target
 		k   int
 		hrr bool
+		// single: exactly this one edit kind (-1: a random sequence of k%5 edits)
+		single int
+		// visit: 0 per the job index, 1 first visit, 2 returning (TLS 1.2 server), 3 returning (default server)
+		visit int
 	}
 	var jobs []job
 	for _, tg := range targets {
 		for k := 0; k < seqs; k++ {
-			jobs = append(jobs, job{tg, k, false}, job{tg, k, true})
+			jobs = append(jobs, job{tg, k, false, -1, 0}, job{tg, k, true, -1, 0})
+		}
+	}
+	// every edit kind on its own, for every parrot (and a sample of the other targets), as a
+	// first visit and as a returning client of a TLS 1.2 / a default server
+	for ti, tg := range targets {
+		if ti >= len(AllParrots)-1 && ti%mon.Pick(8, 1) != 0 {
+			continue
+		}
+		for kind := 0; kind < c01EditKinds; kind++ {
+			for visit := 1; visit <= 3; visit++ {
+				jobs = append(jobs, job{tg, kind, false, kind, visit})
+			}
 		}
 	}
 	var mu sync.Mutex
@@ -355,6 +377,15 @@ func TestC01(t *testing.T) {
 		}
 		nEdits := j.k % 5
 		tg := j.t
+		// one connection in eight is made with an ECH config list in the Config (the server
+		// holds the key): the caller sees and the wire carries the outer hello.  Edits are left
+		// out there (the names they set / check belong to the inner hello); a target whose spec
+		// has no ECH extension cannot encode the offer and has to say so.
+		echFlavour := i%8 == 5 && j.single < 0
+		if echFlavour {
+			nEdits = 0
+			scfg.EncryptedClientHelloKeys = peer.ECHServerKeys(true, c01ECHKey())
+		}
 		prep := tg.Prepare()
 		opts := peer.Opts{Prepare: func(u *tls.UConn) error {
 			uc = u
@@ -365,8 +396,14 @@ func TestC01(t *testing.T) {
 				return err
 			}
 			usedClass := map[string]bool{}
+			if j.single >= 0 {
+				nEdits = 1
+			}
 			for e := 0; e < nEdits; e++ {
 				ed := genEdit(rg, u)
+				if j.single >= 0 {
+					ed = genEditKind(rg, u, j.single)
+				}
 				// two edits of the same field in one sequence would hide each other: one per class
 				class := strings.SplitN(strings.SplitN(ed.name, "(", 2)[0], "+=", 2)[0]
 				if class == "SetSNI" || class == "Extensions[SNI].ServerName" {
@@ -392,6 +429,25 @@ func TestC01(t *testing.T) {
 		}}
 		ccfg := peer.ClientConfig("example.test")
 		ccfg.OmitEmptyPsk = true
+		returning12 := j.visit == 2 || j.visit == 0 && i%8 == 6 && !j.hrr
+		returning := returning12 || j.visit == 3 || j.visit == 0 && i%8 == 2
+		if returning {
+			// a returning client: the session cache holds a session from an earlier, clean
+			// connection to this server (TLS 1.2 ticket or TLS 1.3 PSK), so the hello that is
+			// built, edited and sent carries resumption material
+			if returning12 {
+				scfg.MaxVersion = tls.VersionTLS12
+			}
+			ccfg.ClientSessionCache = tls.NewLRUClientSessionCache(4)
+			ccfg.PreferSkipResumptionOnNilExtension = true
+			if w := peer.Run(ccfg, tg.ClientID(), scfg, peer.Opts{Prepare: prep}); w.OK() {
+				r.Count("returning_clients", 1)
+			}
+		}
+		if echFlavour {
+			ccfg.EncryptedClientHelloConfigList = peer.ECHConfigList(c01ECHKey())
+			r.Count("connections_with_ech_config", 1)
+		}
 		h := peer.Run(ccfg, tg.ClientID(), scfg, opts)
 		var names []string
 		for _, e := range edits {
@@ -424,7 +480,9 @@ func TestC01(t *testing.T) {
 		if atServer != nil {
 			r.Count("raw_at_server_compared", 1)
 		}
-		if snapshot != nil {
+		if snapshot != nil && !echFlavour {
+			// (with a real ECH offer every build draws a new inner random and HPKE
+			// encapsulation, so only Raw "as rebuilt at handshake start" is comparable)
 			r.Count("snapshot_compared", 1)
 			if !bytes.Equal(ch1, snapshot) {
 				r.Violation(sig("wire_differs_from_inspected_hello"), fmt.Sprintf("%s [%s]: the hello sent differs from Hello.Raw as inspected after the last BuildHandshakeState (%d vs %d bytes)", tg.Name, label, len(ch1), len(snapshot)), rep)
@@ -494,5 +552,5 @@ func TestC01(t *testing.T) {
 	if len(editSeen) < 8 {
 		r.Inconclusive(fmt.Sprintf("only %d of 8 edit kinds exercised", len(editSeen)))
 	}
-	r.Assume("real ECH configurations are outside C01 (a new inner random / HPKE encapsulation per build); they are covered by C15")
+	r.Assume("with a real ECH configuration (one connection in eight) the hello compared is the outer one and no edits are applied; what the inner hello carries is C15's subject")
 }
